@@ -174,6 +174,11 @@ func (c *codecRun) checkEncodeU(u uint64) {
 				c.fail("C18.prefix-eof", "varint %d: the %d-byte prefix of % x gave err=%v", sv, k, sb, err)
 				return
 			}
+			s = sb[:k:k]
+			if v32, err := enc.DecodeVarint32(&s); err != io.EOF || len(s) != k {
+				c.fail("C18.prefix-eof", "DecodeVarint32 of the %d-byte prefix of % x (value %d) gave %d, err=%v", k, sb, sv, v32, err)
+				return
+			}
 		}
 	}
 }
@@ -275,8 +280,14 @@ func (c *codecRun) checkDecode(in []byte) {
 			if !in32 && err == nil {
 				c.fail("C18.varint32", "DecodeVarint32(% x) accepted %d", in, rv)
 			}
-		} else if err != io.EOF || len(s) != len(in) {
-			c.fail("C18.prefix-eof", "DecodeVarint64 of the incomplete string % x gave err=%v", in, err)
+		} else {
+			if err != io.EOF || len(s) != len(in) {
+				c.fail("C18.prefix-eof", "DecodeVarint64 of the incomplete string % x gave err=%v", in, err)
+			}
+			s2 := in
+			if v32, err := enc.DecodeVarint32(&s2); err != io.EOF || len(s2) != len(in) {
+				c.fail("C18.prefix-eof", "DecodeVarint32 of the incomplete string % x gave %d, err=%v and consumed %d bytes", in, v32, err, len(in)-len(s2))
+			}
 		}
 	}
 	{
